@@ -3,6 +3,7 @@ import AdaptaVerif.Model.Pins
 import AdaptaVerif.Model.Nudge
 import AdaptaVerif.Check.Attach
 import AdaptaVerif.Check.Nudge
+import AdaptaVerif.Model.NudgeRegionRun
 /-!
 Driver `driver_c10`: orthogonal nudging (see harness/c10.cpp for the line format).
 SPECFAIL (property clause violated, decided by the checkers of Check/Nudge.lean / Check/Attach.lean
@@ -83,6 +84,67 @@ def corridorViolations (bound lo hi a0 a1 o0 o1 : Rat) (transpose : Bool) (disps
       | .lower i l => s!"segment of connector {(sorted.getD i default).1} at {ratToString (xs.getD i 0)} is below the corridor limit {ratToString l}"
       | .upper i u => s!"segment of connector {(sorted.getD i default).1} at {ratToString (xs.getD i 0)} is above the corridor limit {ratToString u}"))
 
+
+/-! ### hook H1: regions of nudgeOrthogonalRoutes (harness/c10_regions.h) -/
+open AdaptaVerif.Model.NudgeRegion in
+def parseRegions (c : Case) : List DRegion := Id.run do
+  let b (s : String) : Bool := s == "1"
+  let mut out : List DRegion := []
+  for l in c.get "nreg" do
+    let r := nat! l[0]!
+    let segLines := (c.get "nseg").toList.filter (fun t => nat! t[0]! == r)
+    let segs : List (RSeg × Rat × Rat) := segLines.map (fun t =>
+      let ncp := nat! t[17]!
+      let cps := (List.range ncp).map (fun k => (rat! t[18 + 2 * k]!, rat! t[19 + 2 * k]!))
+      (({ conn := nat! t[2]!, lo := rat! t[3]!, hi := rat! t[4]!, pos := rat! t[5]!, minLim := rat! t[6]!, maxLim := rat! t[7]!,
+          fixed := b t[8]!, finalSeg := b t[9]!, endsInShape := b t[10]!, single := b t[11]!, sBend := b t[12]!, zBend := b t[13]!,
+          cps := cps } : RSeg), rat! t[15]!, rat! t[16]!))
+    let vars : List Var := match (c.get "nvar").toList.find? (fun t => nat! t[0]! == r) with
+      | some t => (List.range (nat! t[1]!)).map (fun k => ⟨nat! t[2 + 3 * k]!, rat! t[3 + 3 * k]!, rat! t[4 + 3 * k]!⟩)
+      | none => []
+    let cep : List (Nat × Nat) := match (c.get "ncep").toList.find? (fun t => nat! t[0]! == r) with
+      | some t => (List.range (nat! t[1]!)).map (fun k => (nat! t[2 + 2 * k]!, nat! t[3 + 2 * k]!))
+      | none => []
+    let posLines := (c.get "npos").toList.filter (fun t => nat! t[0]! == r)
+    let atts : List DAttempt := ((c.get "natt").toList.filter (fun t => nat! t[0]! == r)).map (fun t =>
+      let a := nat! t[1]!
+      let n := nat! t[5]!
+      let cons : List FCon := (List.range n).map (fun k => ⟨nat! t[6 + 5 * k]!, nat! t[7 + 5 * k]!, rat! t[8 + 5 * k]!, b t[9 + 5 * k]!⟩)
+      let unsat := (List.range n).map (fun k => b t[10 + 5 * k]!)
+      let fps := match posLines.find? (fun u => nat! u[1]! == a) with
+        | some u => (List.range (nat! u[2]!)).map (fun k => rat! u[3 + k]!)
+        | none => []
+      { sepDist := rat! t[2]!, satisfied := b t[3]!, retry := b t[4]!, cons := cons, unsat := unsat, fps := fps })
+    out := out ++ [{ idx := r, dim := nat! l[1]!, ju := b l[2]!, skipped := b l[3]!, nudgeFinal := b l[4]!, nudgeCommonEnd := b l[5]!,
+                     nudgeColinear := b l[6]!, fsp := rat! l[7]!, base := rat! l[8]!, satisfied := b l[9]!,
+                     segs := segs.map (·.1), wrLow := segs.map (·.2.1), wrHigh := segs.map (·.2.2), vars := vars, atts := atts, cep := cep }]
+  return out
+
+open AdaptaVerif.Model.NudgeRegion in
+/-- consecutive regions of the same stage and dimension = one call of nudgeOrthogonalRoutes -/
+def passes : List DRegion → List (List DRegion)
+  | [] => []
+  | r :: rest =>
+    match passes rest with
+    | (r' :: g) :: gs => if r'.dim == r.dim && r'.ju == r.ju then (r :: r' :: g) :: gs else [r] :: (r' :: g) :: gs
+    | gs => [r] :: gs
+
+open AdaptaVerif.Model.NudgeRegion in
+/-- all findings of the region tie for one case -/
+def regionFindings (c : Case) : List Finding × List String := Id.run do
+  let rs := parseRegions c
+  let mut fs : List Finding := []
+  let mut st : List String := []
+  for r in rs do
+    let o := checkRegion r
+    fs := fs ++ o.findings
+    st := st ++ o.stats
+  for g in passes rs do
+    let o := checkPass g
+    fs := fs ++ o.findings
+    st := st ++ o.stats
+  return (fs, st)
+
 def checkCase (strict : List String) (c : Case) : CaseResult := Id.run do
   for l in c.lines do
     if (l[0]! == "route" || l[0]! == "disp") && l.any (fun t => t == "nan" || t == "-nan" || t == "inf" || t == "-inf") then
@@ -99,12 +161,26 @@ def checkCase (strict : List String) (c : Case) : CaseResult := Id.run do
   s := bump s s!"m.{m}"
   for b in [0, 1, 2, 3, 4] do
     if (opts / 2 ^ b) % 2 == 1 then s := bump s s!"opt.bit{b}"
+  -- hook H1: the regions handed to the solver against Model/NudgeRegion.lean
+  let hook := (c.get1 "hook").map (fun l => l[0]! == "1") |>.getD false
+  let mut diverged : Option String := none
+  if hook then
+    s := bump s "hook.cases"
+    let (fs, sts) := regionFindings c
+    for k in sts do s := bump s k
+    for f in fs do
+      match f with
+      | .diverge m => if diverged.isNone then diverged := some m
+      | .spec cls m =>
+        if cls == "narrow-sep" then s := gated s "narrow-sep" m
+        else if finalNudge then s := gated s "opt-final-nudge" ("[" ++ cls ++ "] " ++ m)
+        else s := fail s ("[" ++ cls ++ "] " ++ m)
   -- a failed library assertion (thrown as vpsc::CriticalFailure): C15 territory, class lib-assert
   for l in c.get "assert" do
     s := gated (bump s (if (l[0]!.splitOn "freeSegmentID").length > 1 then "assert.freeSegmentID" else "assert.other"))
       "lib-assert" s!"library assertion failed: {l[0]!}"
   if !(c.get "assert").isEmpty then
-    return { verdict := match s.fails with | f :: _ => .specfail f | [] => .ok, nontrivial := false, stats := s.stats }
+    return { verdict := match s.fails.reverse with | f :: _ => .specfail f | [] => (match diverged with | some m => .diverge m | none => .ok), nontrivial := false, stats := s.stats }
   let routes := (c.get "route").toList.map (fun l => (nat! l[0]!, ptsFrom l 2 (nat! l[1]!)))
   let disps := (c.get "disp").toList.map (fun l => (nat! l[0]!, ptsFrom l 2 (nat! l[1]!)))
   let cpss := (c.get "cps").toList.map (fun l => (nat! l[0]!, ptsFrom l 2 (nat! l[1]!)))
@@ -207,7 +283,10 @@ def checkCase (strict : List String) (c : Case) : CaseResult := Id.run do
   | none => pure ()
   match s.fails.reverse with
   | f :: _ => return { verdict := .specfail f, nontrivial := sharedBefore > 0, stats := s.stats }
-  | [] => return { verdict := .ok, nontrivial := sharedBefore > 0, stats := s.stats }
+  | [] =>
+    match diverged with
+    | some m => return { verdict := .diverge m, nontrivial := sharedBefore > 0, stats := s.stats }
+    | none => return { verdict := .ok, nontrivial := sharedBefore > 0, stats := s.stats }
 
 def run (args : List String) : IO UInt32 := runCases (checkCase args)
 
